@@ -11,6 +11,7 @@ def dispatch (j : Json) : Json :=
   | "morphy" => opMorphy j
   | "store" => opStore j
   | "glob" => opGlob j
+  | "trace" => opTrace j
   | "validate" => opValidate j
   | "ping" => jObj [("pong", jNat 1)]
   | op => jObj [("bad-op", jStr op)]
